@@ -12,7 +12,7 @@ PROPERTY = "C17"
 
 META = {
     "bounds": {
-        "quick": "4 base programs x every insertion line x 11 error kinds x 5 kinds of symbolic preamble (2 symbolic characters) x {main file, included file}",
+        "quick": "5 base programs (one holding the same operand texts, valid, in an earlier scope) x every insertion line x 11 error kinds x 5 kinds of symbolic preamble (2 symbolic characters) x {main file, included file}",
         "thorough": "same with 3 symbolic characters and two preambles stacked",
     },
     "outside": ["wording of the messages", "parser syntax errors (not in the property's list)", "preambles longer than the bound"],
@@ -28,6 +28,8 @@ BASES = [
     "*=0x8000\n.macro m(a) {\nlda.b #a\n}\nm(1)\n{\nnop\n}\n",
     "*=0x8000\n/* multi\nline\ncomment */\n.db 1, 2\n; c\n.scope ns {\nl:\n}\n",
     "*=0x8000\nx = 4\n.if x {\nnop\n}\n.for i := 0, 2 {\n.db i\n}\n",
+    # the same operand / entry texts as the faulty statements, valid where they stand (the names are local to the scope)
+    "*=0x8000\n.scope first {\nundefined_sym:\nlda.w undefined_sym\nsta.l undefined_sym + 1,x\n.dw 1, undefined_sym\n.db 1,\nundefined_sym + 1,\n3\n}\nnop\n",
 ]
 
 # kind -> (statement text, class, column of the offending character inside the statement or None)
@@ -86,7 +88,9 @@ def jobs(tier, seed):
             for ek in ERRORS:
                 for pre in ("linecomment", "blockcomment", "blank", "blockcomment-sameline", "number-at-eol"):
                     for where in ("main", "included"):
-                        if where == "included" and bi not in (0, 2):
+                        if bi == 4 and (not ek.startswith("undef") or pre not in ("linecomment", "blank")):
+                            continue
+                        if where == "included" and bi not in (0, 2, 4):
                             continue
                         out.append({"id": f"b{bi}/at{pt}/{ek}/{pre}/{where}", "base": bi, "at": pt, "err": ek, "pre": pre, "where": where, "n": n})
     # the faulty statement inside a construct (the location is that of the statement itself, also when
